@@ -227,6 +227,11 @@ def drive_e2e(arg):
     else:
       flush()
   w.rec.end()
-  tr = w.rec.tr
-  w.ad.close()
+  tr = list(w.rec.tr)
+  w.rec.tr = []            # the teardown below is not part of the history
+  w.net.on_tick = w.net.after_task = None
+  try:
+    w.ad.close()
+  except Exception:
+    pass
   return tr
